@@ -212,9 +212,10 @@ def evaluator_for(prog: Program, cls_name: str, sc: StubContext, max_steps: int 
     natives = {("Context", "new_error"): new_error, ("Context", "new_warning"): new_error,
                ("Context", "dprint"): lambda *a, **k: None}
     ev = ModuleAwareEvaluator(prog, methods, natives=natives, max_steps=max_steps)
-    # record classes of context.py that rules build themselves (Macro): constructed and their classmethods interpreted
+    # record classes that rules build themselves (Macro, wherever it lives): constructed and their classmethods interpreted
     for cn, c in prog.classes.items():
-        if c.mod.rel == "context.py" and any("dataclass" in ast.unparse(d) for d in c.node.decorator_list):
+        if cn not in ("Token", "Error", "Highlight", "File") and c.mod.rel not in ("errors.py", "lexer/tokens.py", "file.py") \
+                and any("dataclass" in ast.unparse(d) for d in c.node.decorator_list):
             ev.classes[cn] = c.node
             for n, m in c.methods.items():
                 methods.setdefault((cn, n), m.node)
